@@ -47,7 +47,7 @@ Definition dstate_eqb (a b : dstate) : bool :=
   | _, _ => false
   end.
 Definition xexc_eqb (a b : xexc) : bool :=
-  match a, b with XUser x, XUser y => Nat.eqb x y | XNotFired, XNotFired | XOther, XOther => true | _, _ => false end.
+  match a, b with XUser x, XUser y => Nat.eqb x y | XOther, XOther => true | _, _ => false end.
 Definition opout_eqb (a b : opout) : bool :=
   match a, b with
   | OutMatch x, OutMatch y => Bool.eqb x y
@@ -119,6 +119,8 @@ Definition inspects (m : matcher) (before : dstate) : bool :=
 Definition after_okb (m : matcher) (before after : dstate) : bool :=
   if inspects m before then is_val after else dstate_eqb after before.
 
+(* the value; the failure's own exception, whatever its class (it may be DeferredNotFired itself);
+   DeferredNotFired when there is no result *)
 Definition expect_extract (s : dstate) : res nat xexc :=
   match s with SVal v => Ok v | SErr e => Raised (XUser e) | SUnfired | SWaiting => Raised XNotFired end.
 
